@@ -22,6 +22,8 @@ func checkC03(p *Prog, res *Result, tier string) {
 	res.rule("C03-R2", "every comparison of a stored value with a deletion marker, and the marker written by delete, use the one marker variable", 4)
 	res.rule("C03-R3", "a client value equal to the deletion marker is rejected before it is stored", 2)
 	res.rule("C03-R6", "the internal keys a read is addressed with are well-formed: encoder and decoder agree on the layout and the encoder returns a fresh array (C10-R1)", 5)
+	res.rule("C03-R7", "the revision a range answer names is the one its data was read at: one load of the committed revision before the scan feeds header and default read revision (C06-R2), and the etcd translation hands the backend's header on (C16-R9) - asking again at the named revision gives the same answer", 8)
+	res.rule("C03-R8", "a key-value handed to a result receiver is one stored record: key, value and revision are all three of the record under the iterator, or all three loop-carried copies of the previous record", 2)
 	res.rule("C03-R4", "scan attempts start from an empty receiver; partition borders stay contiguous; a failed partition fails the read (C13-R5/R6/R8)", 5)
 
 	// ---- R1 ----
@@ -296,6 +298,23 @@ func checkC03(p *Prog, res *Result, tier string) {
 		}
 	}
 
+	// ---- R8: a returned key-value is one stored record ----
+	checkResultRecordConsistent(p, r, res, "C03-R8")
+
+	// ---- R7: the revision an answer names is the revision its data was read at ----
+	{
+		sub16 := newResult("C16")
+		checkShimHeaders(p, p.leaderRoles(), sub16, "C16-R9")
+		for _, o := range sub16.Obls {
+			res.add("C03-R7", o.Rule+" "+o.Construct, o.Status, o.Pos, o.Detail)
+		}
+		for _, o := range p.subResult("C06", tier).Obls {
+			if o.Rule == "C06-R2" {
+				res.add("C03-R7", o.Rule+" "+o.Construct, o.Status, o.Pos, o.Detail)
+			}
+		}
+	}
+
 	// ---- R6: the keys a read is addressed with ----
 	sub10 := p.subResult("C10", tier)
 	for _, o := range sub10.Obls {
@@ -345,5 +364,124 @@ func checkC03(p *Prog, res *Result, tier string) {
 				res.bad("C03-R5", construct, p.pos(f.Pos()), "an adapter's iterator can yield a key outside the requested interval and the point read returns it without validation")
 			}
 		}
+	}
+}
+
+// checkResultRecordConsistent: what a scan worker hands to its receiver is one stored record: the key, the value and
+// the revision of an append are either the three values of the record under the iterator (decoded key, iterator
+// value, decoded revision) or the three loop-carried copies of them ("previous record") - never a mixture, which pairs
+// the visible value of a key with the revision of another version.
+func checkResultRecordConsistent(p *Prog, r *Roles, res *Result, rule string) {
+	sp := p.ssaPkg("pkg/backend/scanner")
+	appendM := p.ifaceMethod("pkg/backend/scanner", "resultReceiver", "append")
+	if appendM == nil {
+		res.und(rule, "scanner: receiver append", "-", "interface method not found")
+		return
+	}
+	// class of an operand: +1 the record under the iterator, -1 a loop-carried copy, 0 unknown
+	var class func(v ssa.Value, kind int, d int) int // kind: 0 key, 1 revision, 2 value
+	class = func(v ssa.Value, kind int, d int) int {
+		if d > 6 {
+			return 0
+		}
+		v = resolve(v)
+		switch x := v.(type) {
+		case *ssa.Extract:
+			if c, ok := x.Tuple.(*ssa.Call); ok && r.is(c, r.Decode) && x.Index == kind && kind < 2 {
+				return 1
+			}
+		case *ssa.Call:
+			if kind == 2 && r.is(x, r.ItVal) {
+				return 1
+			}
+		case *ssa.Phi:
+			carried := false
+			for _, e := range x.Edges {
+				if e == ssa.Value(x) {
+					continue
+				}
+				if k, ok := e.(*ssa.Const); ok && (k.IsNil() || k.Value == nil || isZeroConst(k)) {
+					continue
+				}
+				switch class(e, kind, d+1) {
+				case 1, -1:
+					carried = true
+				default:
+					return 0
+				}
+			}
+			if carried {
+				return -1
+			}
+		}
+		return 0
+	}
+	n := 0
+	var fs []*ssa.Function
+	for _, f := range p.AllFuncs {
+		if f.Pkg == sp && f.Blocks != nil && f.Synthetic == "" {
+			fs = append(fs, f)
+		}
+	}
+	sort.Slice(fs, func(i, j int) bool { return funcName(fs[i]) < funcName(fs[j]) })
+	for _, f := range fs {
+		k := 0
+		for _, c := range callsIn(f) {
+			if !c.Common().IsInvoke() || c.Common().Method != appendM {
+				continue
+			}
+			args := c.Common().Args
+			if len(args) != 3 {
+				continue
+			}
+			ck, cv, cr := class(args[0], 0, 0), class(args[1], 2, 0), class(args[2], 1, 0)
+			if ck == 0 && cv == 0 && cr == 0 {
+				continue // a forwarding receiver (merge), not the scan loop
+			}
+			k++
+			n++
+			construct := fmt.Sprintf("%s: result record #%d is one stored record", funcName(f), k)
+			name := map[int]string{1: "current", -1: "previous", 0: "unknown"}
+			// three loop-carried copies must be carried together: on every incoming edge all three keep their value,
+			// or all three take the current record, or all three are the initial zero
+			if ck == -1 && cv == -1 && cr == -1 {
+				pk, ok1 := resolve(args[0]).(*ssa.Phi)
+				pv, ok2 := resolve(args[1]).(*ssa.Phi)
+				pr, ok3 := resolve(args[2]).(*ssa.Phi)
+				together := ok1 && ok2 && ok3 && pk.Block() == pv.Block() && pv.Block() == pr.Block()
+				if together {
+					cat := func(phi *ssa.Phi, e ssa.Value, kind int) int {
+						switch {
+						case e == ssa.Value(phi):
+							return 0
+						case class(e, kind, 0) == 1:
+							return 1
+						}
+						if k, ok := e.(*ssa.Const); ok && (k.IsNil() || k.Value == nil || isZeroConst(k)) {
+							return 2
+						}
+						return 3
+					}
+					for i := range pk.Edges {
+						a, b, c3 := cat(pk, pk.Edges[i], 0), cat(pv, pv.Edges[i], 2), cat(pr, pr.Edges[i], 1)
+						if a != b || b != c3 || a == 3 {
+							together = false
+						}
+					}
+				}
+				if !together {
+					res.bad(rule, construct, p.pos(c.Pos()), "key, value and revision handed to the receiver are loop-carried, but not carried together (one of them is the running copy of the record under the iterator, another the copy of the previous record): a key is returned with the value of one version and the revision of another")
+					continue
+				}
+			}
+			if ck != 0 && ck == cv && cv == cr {
+				res.ok(rule, construct, p.pos(c.Pos()), "key, value and revision of the "+name[ck]+" record")
+			} else {
+				res.bad(rule, construct, p.pos(c.Pos()), fmt.Sprintf("the record handed to the receiver mixes the %s key, the %s value and the %s revision: a key is returned with the value of one version and the revision of another (a modification revision above the header, or one that belongs to a version the read does not see)", name[ck], name[cv], name[cr]))
+			}
+		}
+	}
+	if n == 0 {
+		res.und(rule, "scanner: result records", "-", "no append of a scanned record found")
 	}
 }
